@@ -39,7 +39,9 @@ HARNESSES = [
     dict(name="dir_end", file="dir_end.c", label="bounded(entries<=3,name<=4)",
          timeout=300, unwind=13, nochecks=["--conversion-check"],
          pre_instrument_flags=["--replace-calls", "get_conseq_entry_count:stub_conseq"],
-         cases=[dict(id="r%d%d%d" % r, defines={"R0": r[0], "R1": r[1], "R2": r[2]},
+         cases=[dict(id="r%d%d%d" % r,
+                     defines=dict({"R0": r[0], "R1": r[1], "R2": r[2]},
+                                  **({"L0": 1, "L1": 1, "L2": 2} if r == (1, 1, 1) else {})),
                      tier="quick" if sum(r) <= 2 or r == (2, 1, 0) else "thorough")
                 for r in ((1, 0, 0), (2, 0, 0), (1, 1, 0), (3, 0, 0), (2, 1, 0),
                           (1, 2, 0), (1, 1, 1))]),
